@@ -23,7 +23,7 @@ def run(tier, replay_path=None):
     maxlen = 4 if tier == "quick" else 5
     # (A)+(B): design check + generation
     cfg = ("SPECIFICATION Spec\nCONSTANT MaxLen = %d\n"
-           "INVARIANT LosslessSoFar NonEmpty NeverStuck AbsWhenDone FunctionalEq StepBound Emit\n"
+           "INVARIANT LosslessSoFar NonEmpty NeverStuck AbsWhenDone FunctionalEq StepBound ScannerAdvances Emit\n"
            "PROPERTY Progress Terminates\nCHECK_DEADLOCK FALSE\n" % maxlen)
     if replay_path:
         rep = json.load(open(replay_path))
@@ -32,6 +32,16 @@ def run(tier, replay_path=None):
     else:
         mc = run_tlc("MCTokenizer", cfg, os.path.join(wd, "mc"), workers=8, heap="6g", young=None, timeout=3000)
         tlc_must_pass(mc, "MCTokenizer")
+        # unbounded: losslessness and termination of the iterator from the scanner's progress (TLAPS)
+        import shutil, subprocess, re
+        pd = os.path.join(wd, "tlaps"); shutil.rmtree(pd, ignore_errors=True); os.makedirs(pd)
+        shutil.copy(os.path.join(SPEC, "TokenizerProof.tla"), pd)
+        pr = subprocess.run(["tlapm", "--threads", "8", "--cleanfp", "TokenizerProof.tla"], cwd=pd, stdout=subprocess.PIPE, stderr=subprocess.STDOUT, text=True, timeout=900)
+        mo = re.search(r"All (\d+) obligations proved", pr.stdout)
+        if not mo:
+            raise ToolError("tlapm did not prove TokenizerProof.tla:\n" + pr.stdout[-2000:])
+        tlaps_n = int(mo.group(1))
+        log("[C16] TokenizerProof.tla: %d obligations proved by TLAPS (lossless + terminating for every input length, given ScannerAdvances)" % tlaps_n)
         words = mc.json_payloads("CASE")
         chars = [a["c"] for a in ALPHA]
         cases = []
@@ -89,6 +99,8 @@ def run(tier, replay_path=None):
         "rule": "inputs = all strings of length <= %d over the 12-symbol token alphabet (TLC state space, one behaviour per string, one action per Tokenizer::next call) + class-representative variants + seeded random Unicode strings (len <= 200); non-trivial = contains a quote delimiter, placeholder mark or backslash" % maxlen,
         "samples": [{"s": r["s"], "toks": r["obs"].get("toks")} for r in good[:: max(1, len(good) // 5)][:5]],
         "exhaustive": False, "impl_model_exact": drift == 0, "drift": drift,
+        "tlaps_obligations_proved": tlaps_n if mc else 0,
+        "unbounded": "TokenizerProof.tla (TLAPS): for every input length, if each scanner call ends strictly beyond its start (ScannerAdvances, checked by TLC on all bounded strings) the emitted tokens concatenate to the consumed prefix, none is empty and the iterator terminates",
         "mc_invariants": "LosslessSoFar NonEmpty NeverStuck AbsWhenDone FunctionalEq StepBound; PROPERTY Progress Terminates (WF)",
         "tlc_mc_wall_s": round(mc.wall, 1) if mc else 0, "tlc_validate_wall_s": round(vt, 1),
     }
